@@ -19,7 +19,7 @@ def main():
         print('refusing: /repo has local modifications:\n' + st)
         return 2
     props = [c['property_id'] for c in json.load(open(os.path.join(VERIF, 'MANIFEST.json')))['checks']]
-    seeds = sorted(d for d in os.listdir(os.path.join(VERIF, 'seeded')) if os.path.isdir(os.path.join(VERIF, 'seeded', d)))
+    seeds = sorted(d for d in os.listdir(os.path.join(VERIF, 'seeded')) if os.path.isfile(os.path.join(VERIF, 'seeded', d, 'meta.json')))
     if len(sys.argv) > 1:
         seeds = [s for s in seeds if s in sys.argv[1:]]
     summary = {}
